@@ -504,6 +504,87 @@ def check_progress(ctx, fi, cls, rule="C06.R8"):
     return n
 
 
+import re as _re
+_SPEC = _re.compile(r"%(?:\((\w+)\))?[#0\- +]*(\*|\d+)?(?:\.(\*|\d+))?[hlL]?([diouxXeEfFgGcrsab%])")
+
+
+def format_arity(text):
+    """number of positional values a %-format string consumes; None if it uses mapping keys or is malformed"""
+    n = 0
+    pos = 0
+    while True:
+        i = text.find("%", pos)
+        if i < 0:
+            return n
+        m = _SPEC.match(text, i)
+        if not m:
+            return None
+        if m.group(1):
+            return None
+        if m.group(4) != "%":
+            n += 1 + (m.group(2) == "*") + (m.group(3) == "*")
+        pos = m.end()
+
+
+def check_formats(ctx, rule="C06.R10"):
+    """`"literal" % (a, b)`: the literal consumes exactly as many values as the tuple supplies (otherwise building the message of an error
+    raises TypeError, which escapes instead of the ConstructError that was about to be raised)."""
+    M = ctx.model
+    n = 0
+    for fi in M.all_functions():
+        if fi.relpath.endswith("debug.py"):
+            continue
+        for node in ast.walk(fi.node):
+            if not (isinstance(node, ast.BinOp) and isinstance(node.op, ast.Mod) and isinstance(node.left, ast.Constant) and isinstance(node.left.value, str)):
+                continue
+            owner = getattr(node, "_parent", None)
+            inner = False
+            while owner is not None and owner is not fi.node:
+                if isinstance(owner, (ast.FunctionDef, ast.Lambda)):
+                    inner = True
+                    break
+                owner = getattr(owner, "_parent", None)
+            if inner:
+                continue        # belongs to a nested function, which is visited on its own
+            want = format_arity(node.left.value)
+            r = node.right
+            if want is None or isinstance(r, (ast.Name, ast.Dict, ast.Starred)):
+                continue
+            have = len(r.elts) if isinstance(r, ast.Tuple) else 1
+            if isinstance(r, ast.Tuple) and any(isinstance(e, ast.Starred) for e in r.elts):
+                continue
+            n += 1
+            ctx.ob(rule, fi, want == have, "format string %r consumes %d value(s), %d supplied" % (node.left.value[:50], want, have), key="format %s" % node.left.value[:60], node=node)
+    return n
+
+
+def check_wrappers(ctx, rule="C06.R9"):
+    """The stream wrappers pass failures of the stream they wrap on: no handler around a call on the wrapped stream ends normally
+    (a swallowed read error would turn into end-of-data and a silently truncated value)."""
+    M = ctx.model
+    n = 0
+    for cname in ("RestreamedBytesIO", "BytesIOWithOffsets"):
+        ci = M.classes.get(cname)
+        if ci is None:
+            raise AnalysisError("anchor vanished: class %s" % cname)
+        for mname in sorted(ci.methods):
+            fi = M.method(cname, mname)
+            bad = []
+            for t in ast.walk(fi.node):
+                if not isinstance(t, ast.Try):
+                    continue
+                touches = any(isinstance(c, ast.Call) and isinstance(c.func, ast.Attribute) and (ast.unparse(c.func.value) in ("self.substream", "super()"))
+                              for st in t.body for c in ast.walk(st))
+                if not touches:
+                    continue
+                for h in t.handlers:
+                    if not (h.body and isinstance(h.body[-1], ast.Raise)):
+                        bad.append(h)
+            n += 1
+            ctx.ob(rule, fi, not bad, "%s.%s lets every failure of the wrapped stream propagate (no handler around it ends normally)" % (cname, mname), key="propagates", node=bad[0] if bad else fi.node)
+    return n
+
+
 def run(ctx):
     M = ctx.model
     S = summariser(ctx)
@@ -548,6 +629,13 @@ def run(ctx):
         if f is not None:
             check_progress(ctx, f, None)
     ctx.floor("C06.R8", 20)
+    # ---------------------------------------------------------------- R9 / R10
+    from . import C15
+    C15.rot_length_guard(ctx, "C06.R3")         # group indexing of parsed data is dominated by the multiple-of-group guard (else IndexError escapes)
+    check_wrappers(ctx)
+    ctx.floor("C06.R9", 10)
+    check_formats(ctx)
+    ctx.floor("C06.R10", 20)
     # a terminator narrower than the code unit accepts strict prefixes of canonical encodings (shared with C03.R2)
     from . import C03
     C03.unit_table_check(ctx, "C06.R2")
